@@ -10,12 +10,18 @@ import (
 type Task struct {
 	runFunc func(ctx context.Context) error
 
-	isRunning atomic.Bool           // bool
-	isDone    atomic.Bool           // bool
-	stopCh    atomic.Value          // chan struct{}
-	doneCh    atomic.Value          // chan struct{}
-	cancel    atomic.Value          // context.CancelFunc
-	err       atomic.Pointer[error] // error
+	isRunning atomic.Bool             // bool
+	isDone    atomic.Bool             // bool
+	run       atomic.Pointer[taskRun] // cancel func and stop channel of the latest invocation
+	doneCh    atomic.Value            // chan struct{}
+	err       atomic.Pointer[error]   // error
+}
+
+// taskRun holds what Stop needs about one invocation; it is published as a whole, so that
+// Stop never pairs the cancel func of one invocation with the stop channel of another
+type taskRun struct {
+	cancel context.CancelFunc
+	stopCh chan struct{}
 }
 
 type Runnable interface {
@@ -51,16 +57,13 @@ func (s *Task) Start(ctx context.Context) {
 	}
 	subCtx, cancel := context.WithCancel(ctx)
 
-	verifPoint(s, "start.storeCancel")
-	s.cancel.Store(cancel)
-	verifPoint(s, "start.storeStop")
-	s.stopCh.Store(make(chan struct{}))
+	run := &taskRun{cancel: cancel, stopCh: make(chan struct{})}
+	verifPoint(s, "start.storeRun")
+	s.run.Store(run)
 	s.err.Store(nil)
 
 	verifPoint(s, "start.spawn")
 	go func() {
-		defer s.isRunning.Store(false)
-		defer verifPoint(s, "go.reset")
 		verifPoint(s, "go.begin")
 		err := s.runFunc(subCtx)
 		verifPoint(s, "go.returned")
@@ -68,8 +71,12 @@ func (s *Task) Start(ctx context.Context) {
 
 		// returned due to calling Stop()
 		if ctx.Err() == nil && subCtx.Err() != nil && isContextErr {
+			// the running flag is reset before the stop is signalled, so that a Start
+			// issued after waiting for Stop() is not dropped
+			verifPoint(s, "go.reset")
+			s.isRunning.Store(false)
 			verifPoint(s, "go.closeStop")
-			close(s.stopCh.Load().(chan struct{}))
+			close(run.stopCh)
 			return
 		}
 
@@ -80,8 +87,10 @@ func (s *Task) Start(ctx context.Context) {
 			s.err.Store(&err)
 			verifPoint(s, "go.closeDone")
 			close(s.doneCh.Load().(chan struct{}))
+			verifPoint(s, "go.reset")
+			s.isRunning.Store(false)
 			verifPoint(s, "go.closeStop")
-			close(s.stopCh.Load().(chan struct{}))
+			close(run.stopCh)
 			return
 		}
 
@@ -91,32 +100,25 @@ func (s *Task) Start(ctx context.Context) {
 		s.err.Store(&err)
 		verifPoint(s, "go.closeDone")
 		close(s.doneCh.Load().(chan struct{}))
+		verifPoint(s, "go.reset")
+		s.isRunning.Store(false)
 		verifPoint(s, "go.closeStop")
-		close(s.stopCh.Load().(chan struct{}))
+		close(run.stopCh)
 	}()
 }
 
 func (s *Task) Stop() <-chan struct{} {
-	verifPoint(s, "stop.loadCancel")
-	c := s.cancel.Load()
-	if c == nil {
+	verifPoint(s, "stop.loadRun")
+	run := s.run.Load()
+	if run == nil {
 		closedCh := make(chan struct{})
 		close(closedCh)
 		return closedCh
 	}
 
 	verifPoint(s, "stop.cancel")
-	c.(context.CancelFunc)()
-
-	verifPoint(s, "stop.loadStop")
-	st := s.stopCh.Load()
-	if st == nil {
-		closedCh := make(chan struct{})
-		close(closedCh)
-		return closedCh
-	}
-
-	return st.(chan struct{})
+	run.cancel()
+	return run.stopCh
 }
 
 // Done returns a channel that's closed when task exited or cancelled from outside using context
